@@ -23,6 +23,12 @@ Ops (after the property id):
                                        sEed / Spectral analyzer on an input of that rate with the caller's dict or
                                        method=None, `f<k>` analyzer k `.frequencies` (Spectral: `.psd[0]`), `c<k>`
                                        `.cpsd[0]`; answer: the vector each read returned, `;`-separated
+  sess <coherence|sparse> <N> <lb> <ub|none> <user Fs|none> <rate0> <ev> …
+                                       ONE analyzer whose `set_input` body is `Generated.SetInput.<class>`, built on an input
+                                       (id 0) of rate0: `s<rate>:<0|1>:<id>` set_input with the series of that id (1 = the class
+                                       refuses it; the id of the series held: the SAME object may be given again), `f` read `.frequencies`, `r` reset(); answer per read:
+                                       `<id of the input held>@<vector>`, `;`-separated
+  ctor <coherence|sparse|seed> <0|1>   a construction (1: with arguments the class refuses): `<caller's dict written> <raised>`
 `<Fs>`, `<lb>`, `<ub>`: `x<16 hex>` (a double, taken exactly) or `p/q`.
 -/
 import Nitime.Model.Proto
@@ -33,6 +39,8 @@ import Nitime.Generated.Grids
 import Nitime.Generated.Methods
 import Nitime.Model.C05Len
 import Nitime.Generated.GridLens
+import Nitime.Model.CohSession
+import Nitime.Generated.SetInput
 
 namespace Nitime.C05
 open Nitime.Proto
@@ -171,8 +179,59 @@ def parseTwoEv (t : String) : Option Two.Ev :=
   else if t.startsWith "c" then (t.drop 1).toString.toNat?.map .cpsd
   else none
 
+/-- events of a `sess` line -/
+def parseSessEvs : List String → Option (List CohSession.Ev)
+  | [] => some []
+  | t :: r =>
+    if t = "f" then (parseSessEvs r).map (.readFreq :: ·)
+    else if t = "r" then (parseSessEvs r).map (.reset :: ·)
+    else if t.startsWith "s" then
+      match (t.drop 1).toString.splitOn ":" with
+      | [q, b, k] =>
+        match parseQ? q, k.toNat?, parseSessEvs r with
+        | some q, some k, some es => some (.setInput ⟨q, k⟩ (b = "1") :: es)
+        | _, _, _ => none
+      | _ => none
+    else none
+
+def sessGrid (cls : String) (n : Nat) (lb : Rat) (ub : Option Rat) (fs : Rat) : List Rat :=
+  if cls = "sparse" then
+    match lookup "SparseCoherenceAnalyzer_frequencies" with
+    | some g => sliceBand (eval g piApprox fs n) lb ub | none => []
+  else trueOneSided fs n
+
+def handleSess (args : List String) : String :=
+  match args with
+  | cls :: n :: lb :: ub :: ufs :: r0 :: evs =>
+    match Nitime.Generated.SetInput.programs.lookup cls, n.toNat?, parseQ? lb, parseUb? ub, parseUb? ufs, parseQ? r0, parseSessEvs evs with
+    | some prog, some n, some lb, some ub, some ufs, some r0, some es =>
+      if prog.contains .unknown then "unsupported" else
+      let out := CohSession.run (sessGrid cls n lb ub) prog (CohSession.init ⟨r0, 0⟩ ufs) es
+      if out.isEmpty then "none" else ";".intercalate (out.map fun p => toString p.2 ++ "@" ++ showRatList p.1)
+    | none, _, _, _, _, _, _ => "no-such-class"
+    | _, _, _, _, _, _, _ => "bad-args"
+  | _ => "bad-args"
+
+/-- `ctor <coherence|sparse|seed> <refused 0|1>`: `<the caller's method dict was written 0|1> <raised 0|1>` -/
+def handleCtor (args : List String) : String :=
+  match args with
+  | [cls, r] =>
+    let pk : Option (List CohSession.CStmt × Bool) := match cls with
+      | "coherence" => some (Nitime.Generated.SetInput.coherenceCtor, (Nitime.Generated.Methods.spec .coherence).keeps)
+      | "sparse" => some (Nitime.Generated.SetInput.sparseCtor, (Nitime.Generated.Methods.spec .sparse).keeps)
+      | "seed" => some (Nitime.Generated.SetInput.seedCtor, (Nitime.Generated.Methods.spec .seed).keeps)
+      | _ => none
+    match pk with
+    | some (p, keeps) =>
+      let o := CohSession.ctorExec (r = "1") keeps p false
+      (if o.1 then "1" else "0") ++ " " ++ (if o.2 then "1" else "0")
+    | none => "no-such-class"
+  | _ => "bad-args"
+
 def handle (args : List String) : String :=
   match args with
+  | "sess" :: rest => handleSess rest
+  | "ctor" :: rest => handleCtor rest
   | "hist" :: evs :: rest =>
     match vecOf rest with
     | none => handleVec rest
